@@ -370,6 +370,22 @@ def _sinks(ck, prog):
         return None
     got = [elem(_arg(sc, 0, "x")), elem(_arg(sc, 1, "y")), elem(_arg(an, 0, "text") or _arg(an, 0, "s"))]
     ck.shape(all(x is not None for x in got), "multiple_plot: per-point coordinates and label traced to the list parameters", g.loc(lp))
+    # the per-point names must still hold the list elements when the marker is drawn: a re-assignment between the loop header and the scatter
+    # call (other than a value-preserving conversion of itself) draws the marker somewhere else
+    for a_ in (_arg(sc, 0, "x"), _arg(sc, 1, "y")):
+        nm = a_.args[0] if isinstance(a_, ast.Call) and unparse(a_.func) in CONV and len(a_.args) == 1 else a_
+        if not isinstance(nm, ast.Name):
+            continue
+        for st in ast.walk(lp):
+            if isinstance(st, (ast.Assign, ast.AugAssign)) and st.lineno < sc.lineno:
+                tg = st.targets if isinstance(st, ast.Assign) else [st.target]
+                if not any(isinstance(x, ast.Name) and x.id == nm.id for t in tg for x in ast.walk(t)):
+                    continue
+                v = st.value
+                conv = isinstance(st, ast.Assign) and isinstance(v, ast.Call) and unparse(v.func) in CONV and len(v.args) == 1 and isinstance(v.args[0], ast.Name) and v.args[0].id == nm.id
+                if not conv:
+                    ck.ob("PROV-sink", c2, False, expected="the marker of point i is drawn at (x_list[i], y_list[i])", found=unparse(st), slot="scatter:moved:" + nm.id, where=g.loc(st),
+                          note="the coordinate is changed before plt.scatter: the sequence is no longer drawn where it lies")
     ck.ob("PROV-sink", c2, got == ["x_list", "y_list", "label_list"], expected="point i: scatter(x_list[i], y_list[i]); annotate(label_list[i])", found=got, slot="scatter", where=g.loc(lp))
     for name in ("finalize_DasPappu", "finalize_uversky"):
         h = prog.fn(PLT, name)
